@@ -30,6 +30,7 @@ structure Ok3 (R : Con → Prop) (RE : Exp → Prop) (E : Env) (G : St → Prop)
 /-- the hypotheses about the environment the class `Solver` needs -/
 structure SolverHyps (R : Con → Prop) (RE : Exp → Prop) (E : Env) : Prop where
   reg : Reg R E
+  zid : ZidFaithful R
   oracle : OracleExact E
   simpOn : SimpOn R E
   simpVars : SimpVars R E
@@ -60,7 +61,7 @@ theorem sL9_ok2 {self : Ops} (hcc : ∀ c, self.concreteCon c = c.conc) : Ok2 R 
 theorem sL9_sat_spec {self : Ops} (hs : Ok1 R RE E G self) (extra : List Con) (wf : ∀ c ∈ extra, ConWf c) :
     SatSpec R RE E G U extra ((sL9 E self).satisfiable extra) := by
   have h0 : ∀ ec, SatSpec R RE E G U ec ((sL2 E self).satisfiable ec) :=
-    fun ec => full_satisfiable_spec (self := self) (sup := constrainedLayer E self frontendBase) H.oracle H.reg hs.hook ec
+    fun ec => full_satisfiable_spec (self := self) (sup := constrainedLayer E self frontendBase) H.oracle H.reg H.zid hs.hook ec
   have h3 : ∀ ec, SatSpec R RE E G U ec ((sL3 E self).satisfiable ec) :=
     fun ec => mc_satisfiable_spec (self := self) (sup := sL2 E self) ec (h0 ec)
   have h4 : ∀ ec, SatSpec R RE E G U ec ((sL6 E self).satisfiable ec) :=
@@ -71,8 +72,8 @@ theorem sL3_eval_spec {self : Ops} (hs : Ok1 R RE E G self) (e : Exp) (he : RE e
     (extra : List Con) : EvalSpec R RE E G U e n extra ((sL3 E self).eval e n extra) := by
   have h0 : ∀ n' extra', 1 ≤ n' → BatchSpec R RE E G U [e] n' extra' ((sL2 E self).batchEval [e] n' extra') :=
     fun n' extra' hn' => helper_batchEval_spec (self := self) (sup := sL0 E self) hs.simp [e] n' extra'
-      (full_batchEval_spec (self := self) (sup := constrainedLayer E self frontendBase) H.oracle H.reg H.evalComplete
-        H.expReg hs.hook [e] n' hn' extra')
+      (full_batchEval_spec (self := self) (sup := constrainedLayer E self frontendBase) H.oracle H.reg H.zid
+        H.evalComplete H.expReg hs.hook [e] n' hn' extra')
   exact mc_eval_spec (self := self) (sup := sL2 E self) H.pick H.expReg e he hc n hn extra h0
 
 theorem sL7_eval_spec {self : Ops} (hs : Ok1 R RE E G self) (e : Exp) (he : RE e) (hc : e.conc = none) (n : Nat) (hn : 1 ≤ n)
@@ -107,7 +108,7 @@ theorem sL7_opt_spec {self : Ops} (hs : Ok3 R RE E G self) (isMax : Bool) (e : E
     have : (if isMax then (sL0 E self).max e ec signed else (sL0 E self).min e ec signed) = fullExtremum E self isMax e ec signed := by
       cases isMax <;> rfl
     rw [this]
-    exact full_extremum_spec H.oracle H.reg H.evalComplete H.expReg hs.hook isMax e he hc ec signed (hs.sat U ec wfec)
+    exact full_extremum_spec H.oracle H.reg H.zid H.evalComplete H.expReg hs.hook isMax e he hc ec signed (hs.sat U ec wfec)
       (hs.eval U e 2 ec he hc (by omega) wfec)
   have h1 : ∀ ec, (∀ c ∈ ec, ConWf c) → OptSpec R RE E G U isMax e ec signed
       (if isMax then (sL1 E self).max e ec signed else (sL1 E self).min e ec signed) :=
@@ -158,7 +159,7 @@ theorem sL7_solution_spec {self : Ops} (hs : Ok2 R RE E G self) (e : Exp) (he : 
     (hv : v < 2 ^ e.bits) (extra : List Con) (wf : ∀ c ∈ extra, ConWf c) :
     SolSpec R RE E G U e v extra ((sL7 E self).solution e v extra) := by
   have h0 : ∀ ec, SolSpec R RE E G U e v ec ((sL1 E self).solution e v ec) :=
-    fun ec => full_solution_spec (self := self) (sup := constrainedLayer E self frontendBase) H.oracle H.reg hs.hook e v hv ec
+    fun ec => full_solution_spec (self := self) (sup := constrainedLayer E self frontendBase) H.oracle H.reg H.zid hs.hook e v hv ec
   have h2 : ∀ ec, SolSpec R RE E G U e v ec ((sL2 E self).solution e v ec) :=
     fun ec => expansion_solution_spec (self := self) (sup := sL1 E self) H.build hs.add e he v hv ec (h0 ec)
   have h3 : ∀ ec, SolSpec R RE E G U e v ec ((sL3 E self).solution e v ec) :=
